@@ -552,6 +552,18 @@ impl<'a> Ord for BorrowedTerm<'a> {
                         bits: bbits,
                     },
                 ) => a.cmp(b).then_with(|| abits.cmp(bbits)),
+                (BorrowedTerm::Binary(a), BorrowedTerm::BitBinary { bytes: b, bits }) => {
+                    a.as_ref().cmp(b.as_ref()).then_with(|| 8u8.cmp(bits))
+                }
+                (BorrowedTerm::BitBinary { bytes: a, bits }, BorrowedTerm::Binary(b)) => {
+                    a.as_ref().cmp(b.as_ref()).then_with(|| bits.cmp(&8u8))
+                }
+                (BorrowedTerm::String(a), BorrowedTerm::BitBinary { bytes: b, bits }) => {
+                    a.as_bytes().cmp(b.as_ref()).then_with(|| 8u8.cmp(bits))
+                }
+                (BorrowedTerm::BitBinary { bytes: a, bits }, BorrowedTerm::String(b)) => {
+                    a.as_ref().cmp(b.as_bytes()).then_with(|| bits.cmp(&8u8))
+                }
                 _ => Ordering::Equal,
             },
             other => other,
